@@ -378,6 +378,8 @@ namespace ChamVerif
 structure RepItem where
   length : Nat
   consumed : Nat           -- number of items the loop has taken so far
+  /-- which loop activation this item belongs to (the loop advances its own iterator, whatever `repeat[name]` holds by now) -/
+  tag : Str := []
   deriving Repr, Inhabited, DecidableEq
 
 /-- index as `RepeatItem.index` computes it: `length - remaining - 1` -/
